@@ -112,6 +112,14 @@ def execute(case, result):
     capture = Capture(pool)
     hooked = []
     saved = []
+    # records are enabled through the root logger's threshold; the named loggers keep whatever level they have (normally
+    # none of their own) - a decorator that reconfigures the logging system is not transparent
+    root = logging.getLogger()
+    root_level = root.level
+    root.setLevel(1)
+    names = [p.get("name") for kind, p in case["stack"] if kind == "Logger"] + [op[2] for op in case["ops"] if op[0] == "rename"]
+    untouched = {logging.getLogger(n if n is not None else "RecPool").name: logging.getLogger(n if n is not None else "RecPool").level for n in names}
+    untouched["root"] = 1
     try:
         for kind, p in reversed(case["stack"]):
             obj = classes[kind](obj, **p)
@@ -122,16 +130,17 @@ def execute(case, result):
                 if obj.name != lg.name:
                     for h in hooked:
                         h.removeHandler(capture)
+                    root.setLevel(root_level)
                     return [("Logger configured with name %r reports logger %r, expected %r" % (p.get("name"), obj.name, lg.name), None)]
                 if lg not in hooked:
-                    saved.append((lg, lg.level, lg.propagate))
-                    lg.setLevel(1)
+                    saved.append((lg, untouched.get(lg.name, lg.level), lg.propagate))
                     lg.propagate = False
                     lg.addHandler(capture)
                     hooked.append(lg)
     except Exception as err:
         for lg in hooked:
             lg.removeHandler(capture)
+        root.setLevel(root_level)
         return [("building the stack raised %r" % (err,), None)]
     top = obj
     layers.reverse()  # top-down
@@ -223,8 +232,7 @@ def execute(case, result):
                         if layer.name != want.name:
                             bad("after setting name to %r the Logger reports %r, expected %r" % (op[2], layer.name, want.name))
                         if want not in hooked:
-                            saved.append((want, want.level, want.propagate))
-                            want.setLevel(1)
+                            saved.append((want, untouched.get(want.name, want.level), want.propagate))
                             want.propagate = False
                             want.addHandler(capture)
                             hooked.append(want)
@@ -249,8 +257,12 @@ def execute(case, result):
         for lg in hooked:
             lg.removeHandler(capture)
         for lg, level, propagate in saved:
+            if lg.level != level and lg is not root:
+                problems.append(("stack %s: the level of logging.getLogger(%r) was changed from %r to %r by the Logger decorator(s)"
+                                 % (kinds, lg.name, level, lg.level), None))
             lg.setLevel(level)
             lg.propagate = propagate
+        root.setLevel(root_level)
     return problems[:4]
 
 
@@ -309,8 +321,13 @@ def exec_template(case, result):
         return [("%d records for one write" % len(capture.records), None)]
     record = capture.records[0][0]
     want = case["message"] % {"value": 9, "demand": 3, "supply": 4, "utilisation": 0.25, "allocation": 0.75, "consumption": 0.75, "target": pool}
-    if record.getMessage() != want:
-        return [("message %r, expected %r" % (record.getMessage(), want), None)]
+    try:
+        got = record.getMessage()
+    except Exception as err:  # noqa: B902
+        return [("the record of a template accepted at construction (%r) does not format: %r (record fields %s)"
+                 % (case["message"], err, sorted(record.args) if isinstance(record.args, dict) else record.args), None)]
+    if got != want:
+        return [("message %r, expected %r" % (got, want), None)]
     return []
 
 
